@@ -77,6 +77,9 @@ FileSigs(F) ==
              hasA == cfg.ac # "none"
          IN  C01Track(v, TV, "video")
         \cup (IF hasA THEN C01Track(a, F.tracks[2], "audio") ELSE {})
+        \cup (IF cfg.ac = "aac"    \* C14, second sentence: the stored AAC sample is the ADTS payload slice
+              THEN { Sig("C14", "AdtsPayload", "audio", s[4]) : s \in { x \in C01Track(a, F.tracks[2], "audio") : x[2] = "SampleBytes" } }
+              ELSE {})
         \cup C01Tiling(F)
         \cup (IF cfg.facets.timing THEN
                   C03Track(v, TV, "video") \cup (IF hasA THEN C03Track(a, F.tracks[2], "audio") ELSE {})
